@@ -40,6 +40,13 @@ FEATURES.update({
     'long-choice': "start: " + ' | '.join(f"'{c * 9}'" for c in 'abcdefghij') + " ;\n",
     'long-seq': "start: " + ' '.join(f"'{c * 9}'" for c in 'abcdefghij') + " ;\n",
     'eof-in-choices': "start: 'a' $ | 'b' $ | 'c' $ | ('d' | ';' $ | 'e') ;\n",
+    # spellings whose printed form must still be readable as what it was
+    'whitespace-none': "@@whitespace :: None\n\nstart: 'a' 'b' | /a\\s+b/ ;\n",
+    'based-with-params': "start: sub | both ;\n\nbase[T]: 'a' ;\n\nsub < base: 'b' ;\n\nboth[U, k=1] < base: 'a' ;\n",
+    'keyword-then-typed-rule': "@@keyword :: if\n\nstart::T: 'a' id ;\n\n@name\nid: /[a-z]+/ ;\n",
+    'keyword-then-based-rule': "@@keyword :: ab\n\nbase: 'a' ;\n\nstart < base: id ;\n\n@name\nid: /[a-z]+/ ;\n",
+    'many-keywords': "@@keyword :: " + ' '.join(f'kw{i}longlonglong' for i in range(12)) + " b\n\nstart: {id}+ $ ;\n\n@name\nid: /[a-z]+/ ;\n",
+    'multiline-constant': "start: 'a' c:```one\ntwo``` | 'b' ^```warn\nmore``` ;\n",
     # bodies long enough to be printed over several lines (each element printer has a one-line and a multi-line branch)
     'long-gather': "start: ','.{" + ' | '.join(f"'{c * 20}'" for c in 'abc') + "}+ $ ;\n",
     'long-join': "start: ';'%{" + ' | '.join(f"'{c * 20}'" for c in 'abc') + "} $ ;\n",
@@ -149,6 +156,10 @@ def classify(label, pretty):
     # `empty_closure: '{}' ~ =()` skips the blank line that ends the rule (recorded finding)
     if re.search(r'\{\}[ \t]*\n\s*\n\s*[@\w]', pretty):
         return 'rule-ending-in-empty-closure'
+    # a constant that spans lines: the printer indents the continuation lines with the enclosing expression, and the
+    # indentation becomes part of the constant when the text is read again (recorded finding)
+    if re.search(r'```[^`]*\n[^`]*```', pretty):
+        return 'multi-line-constant'
     return 'other'
 
 
